@@ -113,7 +113,8 @@ def isPoint (bs : Bytes) : Bool :=
     else powMod p 256 x2 ((p - 1) / 2) = 1
 end Ed
 
-/-- `GetED25519PublicKey`: `x` must decode to exactly 32 bytes that encode a point of the curve -/
+/-- `GetED25519PublicKey`, and `JWK.UnmarshalJSON` for an OKP key (D42): `x` must decode to exactly
+    32 bytes that encode a point of the curve -/
 def edFromJwk (k : Jwk) : Option Bytes :=
   if k.kty ≠ "OKP" ∨ k.crv ≠ "Ed25519" then none
   else match b64DecodeStr k.x with
